@@ -187,6 +187,8 @@ def run(check):
     generate_config(check)
     if not check.has_failing():
         existing_output(check)
+    if not check.has_failing():
+        folder_mode_part(check)
     check.exhaustive = True
     check.extra["exhaustive_scope"] = "7 settings x {option absent, present} x {key absent, present} x {-c, ancestor search}"
     check.assumptions += ["TOML (de)serialisation by the `toml` crate and option parsing by `clap` are external; they are exercised through the real binary",
@@ -226,6 +228,38 @@ def existing_output(check):
                                 impl={"after_first_run": first[-1200:], "after_second_run": (second or "")[-1200:], "fresh": third[-1200:]},
                                 failing_input=True)
                 return
+
+
+def folder_mode_part(check):
+    """the effective package reaches every module of a folder run unchanged - the second and third crate's file like the first -
+    whether it comes from the option or from typeshare.toml"""
+    expect = {"kotlin": lambda pk, c: "package %s.%s" % (pk, c), "scala": lambda pk, c: "package %s" % pk.rsplit(".", 1)[0],
+              "go": lambda pk, c: "package %s" % pk}
+    for L, key, flag, val in (("kotlin", "package", "--java-package", "com.x"), ("scala", "package", "--scala-package", "org.y.z"),
+                              ("go", "package", "--go-package", "gpk")):
+        for source in ("option", "file"):
+            with Scratch() as sc:
+                for c in ("alpha", "beta", "gamma"):
+                    sc.write("ws/%s/src/lib.rs" % c, "#[typeshare]\npub struct In%s { pub a: u8 }\n" % c.title())
+                args = ["--lang", L, "-d", sc.path("out")]
+                if source == "option":
+                    args += [flag, val]
+                else:
+                    sc.write("ws/typeshare.toml", toml_text({}, {L: {key: val}}))
+                r = run_cli(args + [sc.path("ws")], cwd=sc.path("ws"))
+                outs = {fn: open(os.path.join(sc.path("out"), fn), encoding="utf-8").read() for fn in sorted(os.listdir(sc.path("out")))} \
+                    if os.path.isdir(sc.path("out")) else {}
+            check.saw(("folder-mode", L, source), nontrivial=True)
+            check.count("folder-mode")
+            for c in ("alpha", "beta", "gamma"):
+                text = outs.get("%s.%s" % (c, EXT[L]), "")
+                want = expect[L](val, c)
+                if r["rc"] != 0 or not re.search(r"(?m)^%s$" % re.escape(want), text):
+                    got = [l for l in text.split("\n") if l.startswith("package ")][:2]
+                    check.violation("%s -d with %s %s = %r: the module of crate `%s` should carry `%s`, it has %s"
+                                    % (L, source, key, val, c, want, got), case={"lang": L, "source_of_setting": source, "value": val, "crate": c},
+                                    impl={"rc": r["rc"], "files": {k: v[:600] for k, v in outs.items()}}, failing_input=True)
+                    return
 
 
 def file_only(check):
